@@ -97,8 +97,8 @@ def tlc_safe(G, lam, p, q, u, agg) -> bool:
     worst = fact * a ** (m - 1) * (m * a * U) * m * a          # Cramer numerator times a row of A
     if worst * max(ud, 1) >= INT_MAX:
         return False
+    A = [[Fraction(q * G[i][j] + (p * lam if i == j else 0)) for j in range(m)] for i in range(m)]
     if agg == "upgrad":
-        A = [[Fraction(q * G[i][j] + (p * lam if i == j else 0)) for j in range(m)] for i in range(m)]
         rows = [proj_exact(A, [u[j] if j == i else Fraction(0) for j in range(m)]) for i in range(m)]
         for j in range(m):
             num, den = 1, 1
@@ -107,7 +107,12 @@ def tlc_safe(G, lam, p, q, u, agg) -> bool:
                 num = max(num, abs(r[j].numerator))
             if den * num * m >= INT_MAX:
                 return False
-    return True
+        w = [sum(r[j] for r in rows) for j in range(m)]
+    else:
+        w = proj_exact(A, list(u))
+    # the exact weights must be identifiable from a float64: denominators <= 1e5 (rationalise() searches up to 1e6
+    # with residual 1e-12, so the identification is unique)
+    return all(x.denominator <= 10 ** 5 and abs(x.numerator) < 10 ** 8 for x in w)
 
 
 # ---------------------------------------------------------------- drivers
@@ -201,12 +206,35 @@ def validate_exact(ctx: Ctx, episodes: list[dict], pid: str) -> dict:
     by_ep = {e["ep"]: e for e in episodes}
     for rj in res.prints.get("REJECT", []):
         e = by_ep[rj["ep"]]
+        exp = [Fraction(a, b) for a, b in rj["expected"]]
+        if len(exp) == len(e["w_float"]) and all(abs(float(q) - x) <= 1e-10 * max(1.0, abs(x)) for q, x in zip(exp, e["w_float"])):
+            raise MachineryError(f"rationalisation artefact: logged {e['w']} for floats {e['w_float']} but exact {rj['expected']}")
         j = ";".join(",".join(str(x) for x in r) for r in e["J"])
         key = f"trace:{e['agg']}:J=[{j}]:e={e['e']}:a={e['a']}:reg=1/{e['reg'][1]}:u={e['u']}"
-        ctx.violation(key, f"{e['agg']}(pref={e['u']}, norm_eps=2^-{e['a']}, reg_eps=1/{e['reg'][1]}) on J = 2^{e['e']} * "
-                           f"{e['J']}: logged weights {e['w_float']} rejected by DualCone ({rj['clause']}); exact weights "
-                           f"{rj['expected']}",
-                      {"kind": "trace", "episode": e, "clause": rj["clause"]})
+        desc = (f"{e['agg']}(pref={e['u']}, norm_eps=2^-{e['a']}, reg_eps=1/{e['reg'][1]}) on J = 2^{e['e']} * {e['J']}: "
+                f"logged weights {e['w_float']}")
+        if pid == "C03":
+            ctx.violation(key, f"{desc} rejected by DualCone ({rj['clause']}); exact weights {rj['expected']}",
+                          {"kind": "trace", "episode": e, "clause": rj["clause"]})
+            continue
+        # C04 only demands the cone constraint (G w)_i >= -reg_eps s^2 w_i of the logged weights
+        cone = rj["cone"]
+        if cone == "unknown":
+            G = gram(e["J"])
+            lam = int_lambda_max(G)
+            q = e["reg"][1]
+            w = e["w_float"]
+            a = max(abs(q * G[i][k] + (lam if i == k else 0)) for i in range(len(G)) for k in range(len(G)))
+            r = [sum((q * G[i][k] + (lam if i == k else 0)) * w[k] for k in range(len(G))) for i in range(len(G))]
+            cone = "yes" if min(r) < -1e-11 * a * sum(abs(x) for x in w) else "no"
+            ctx.count("cone_verdicts_in_float64")
+        if cone == "yes":
+            ctx.violation(key, f"{desc} violate (G w)_i >= -reg_eps s^2 w_i (TraceDualCone: {rj['clause']}); exact weights "
+                               f"{rj['expected']}", {"kind": "trace", "episode": e, "clause": rj["clause"]})
+        else:
+            ctx.count("rejections_that_keep_the_cone_constraint")
+            ctx.note(f"an episode was rejected by TraceDualCone ({rj['clause']}) although its weights satisfy the cone "
+                     f"constraint: not a C04 matter (see C03)")
     ctx.traces += summ["accepted"] + summ["rejected"]
     return summ
 
@@ -286,3 +314,73 @@ def predicate_episodes(ctx: Ctx, rng: random.Random, count: int, pid: str) -> in
         done += 1
         ctx.evaluations += 2 + m
     return done
+
+
+# ---------------------------------------------------------------- MGDA episodes (TraceMinNorm)
+
+def _mgda_matrix(rng: random.Random):
+    m = 3 if rng.random() < 0.8 else 2
+    n = rng.randint(2, 3)
+    kind = rng.random()
+    if kind < 0.5:        # imbalanced row norms (one short row among long ones)
+        short = rng.randrange(m)
+        return [[rng.randint(-1, 1) if i == short else rng.randint(-4, 4) for _ in range(n)] for i in range(m)]
+    if kind < 0.65:       # nearly antiparallel pair
+        r = [rng.randint(-4, 4) for _ in range(n)]
+        J = [r, [-x + rng.choice((0, 0, 1, -1)) for x in r]]
+        J = [[max(-4, min(4, x)) for x in row] for row in J]
+        return J + ([[rng.randint(-4, 4) for _ in range(n)]] if m == 3 else [])
+    return [[rng.randint(-4, 4) for _ in range(n)] for _ in range(m)]
+
+
+def mgda_episode(args) -> dict:
+    J0, K, ep = args
+    A = make("mgda", None, epsilon=0.0, max_iters=K)
+    J = torch.tensor(J0, dtype=torch.float64)
+    out = A(J)
+    a2 = float(out @ out)
+    prod = (J @ out).tolist()
+    slack = 1e-9 * (1.0 + a2)
+    return {"ep": ep, "J": J0, "K": K,
+            "a2lo": int(math.floor((a2 - slack) * 1024)), "a2hi": int(math.ceil((a2 + slack) * 1024)),
+            "phi": [int(math.ceil((p + 1e-9 * (1.0 + abs(p))) * 64)) for p in prod],
+            "out_float": out.tolist()}
+
+
+def mgda_episodes(rng: random.Random, count: int, budgets=(1, 2, 3, 10, 100, 1000, 5000)) -> list:
+    """(J0, K, ep) triples: integer matrices with entries in -4..4, m <= 3 (strongly conflicting, imbalanced,
+    rank-deficient ones included), all iteration budgets; large budgets get half of the episodes."""
+    jobs = []
+    while len(jobs) < count:
+        J0 = _mgda_matrix(rng)
+        if all(x == 0 for r in J0 for x in r):
+            continue
+        K = rng.choice((1000, 5000, 5000)) if rng.random() < 0.5 else rng.choice(budgets)
+        jobs.append((J0, K, len(jobs) + 1))
+    return jobs
+
+
+def validate_mgda(ctx: Ctx, episodes: list[dict]) -> dict:
+    with tempfile.TemporaryDirectory(prefix="verif_minnorm_") as d:
+        path = os.path.join(d, "episodes.json")
+        with open(path, "w") as f:
+            json.dump([{k: e[k] for k in ("ep", "J", "K", "a2lo", "a2hi", "phi")} for e in episodes], f)
+        res = run_tlc("TraceMinNorm", "Trace_MinNorm.cfg", workers=1, env={"TRACE_FILE": path}, timeout=900)
+    ctx.add_tlc(res)
+    if res.violated:
+        raise MachineryError(f"trace spec did not consume the log: {res.violated}\n{res.cex[:1500]}")
+    summ = res.prints.get("SUMMARY", [None])[0]
+    if not summ or summ["episodes"] != len(episodes) or summ["accepted"] + summ["rejected"] != len(episodes):
+        raise MachineryError(f"MGDA trace validation incomplete: {summ}")
+    by_ep = {e["ep"]: e for e in episodes}
+    for rj in res.prints.get("REJECT", []):
+        e = by_ep[rj["ep"]]
+        if rj["clause"].startswith("model_"):
+            raise MachineryError(f"MinNorm model failure on {e['J']}: {rj['clause']}")
+        j = ";".join(",".join(str(x) for x in r) for r in e["J"])
+        ctx.violation(f"trace:mgda:J=[{j}]:K={e['K']}:{rj['clause']}",
+                      f"MGDA(epsilon=0, max_iters={e['K']}) on {e['J']}: A(J) = {e['out_float']}, |A|^2*1024 in "
+                      f"[{e['a2lo']}, {e['a2hi']}], minnorm^2 = {rj['mn2']}, {rj['lamLo']} <= s^2 < {rj['lamLo'] + 1}: "
+                      f"{rj['clause']}", {"kind": "mgda_trace", "J": e["J"], "K": e["K"]})
+    ctx.traces += len(episodes)
+    return summ
